@@ -49,15 +49,21 @@ def run(ctx, rep):
         # chaining + length in the chain terminator
         # the chain may be written as a loop in get_hash or as a fold over the main page (closure accumulator)
         fold_closures = set()
-        for bi, t in fn.calls():
-            if t['f'].get('name') in ('fold', 'try_fold') and len(t.get('args', [])) == 3:
-                for x in fl.operand_leaves(t['args'][2]):
-                    if x.startswith('closure:'):
-                        fold_closures.add(x[len('closure:'):])
+        for body in common.bodies(db, fn, helpers=2):
+            if not body.has_mir or body.compact:
+                continue
+            bf = fl if body is fn else dataflow.Flow(db, body)
+            for bi, t in body.calls():
+                if t['f'].get('name') in ('fold', 'try_fold') and len(t.get('args', [])) == 3:
+                    for x in bf.operand_leaves(t['args'][2]):
+                        if x.startswith('closure:'):
+                            fold_closures.add(x[len('closure:'):])
         ped = []
         acc_ok = True
         len_in_chain = False
-        for body in common.bodies(db, fn):
+        for body in common.bodies(db, fn, helpers=2):
+            if not body.has_mir or body.compact:
+                continue
             bf = fl if body is fn else dataflow.Flow(db, body)
             for bi, t in body.calls():
                 if not (t['f'].get('resolved') or '').endswith('pedersen_hash::pedersen_hash'):
@@ -70,10 +76,12 @@ def run(ctx, rep):
                     (body.path in fold_closures and 'a2' in a0)
                 if not carried:
                     acc_ok = False
-                if any(x.startswith('len(a1.main_page') for x in a1):
+                # in get_hash itself the length is len(a1.main_page); inside a helper it is the length of the helper's own
+                # page parameter (that it is the main page's length in the end is C13.flow's len(a1.main_page) obligation)
+                if any(x.startswith('len(a1.main_page') for x in a1) or (body is not fn and any(x.startswith('len(a') for x in a1)):
                     len_in_chain = True
         acc_ok = acc_ok and bool(ped)
-        rep.ob('C13.chain', 'accumulator-loop-carried', acc_ok and len(ped) >= 3,
+        rep.ob('C13.chain', 'accumulator-loop-carried', acc_ok and len(ped) >= 2,
                f'{len(ped)} Pedersen calls; each takes the running hash as first argument (order and count of cells are bound)', fn.loc(), cfg)
         rep.ob('C13.chain', 'length-terminates-chain', len_in_chain, 'the main-page length is hashed into the Pedersen chain', fn.loc(), cfg)
         # the header receives the chain result and the lengths by separate pushes
